@@ -39,6 +39,7 @@ func main() {
 	commands["c08"] = runC08
 	commands["c18"] = runC18
 	commands["c11"] = runC11
+	commands["c07"] = runC07
 	commands["c17"] = runC17
 	commands["c14hash"] = func(a []string) { initCollisions(); runC14Hash(a) }
 	registerMore()
